@@ -57,16 +57,16 @@ func init() {
 			"evaluations = decodes performed; distinct_nontrivial = distinct damaged byte strings (hash), summed per corpus entry for c15enum plus distinct (stream, reader) signatures for c15seq. Oracle: Decode returns; no panic; no fatal abort (workers run under an address-space cap, so an allocation for an unchecked count is an observable abort); no stall; a returned value survives containment, bounds, edge, cell and re-encode calls.",
 		explanation: "fault enumeration on the stored bytes and the read stream of every Decode method, in capped worker processes",
 		assumptions: []string{
-			"'rejected before memory is allocated' is observed through the per-worker address-space cap (6 GiB): an allocation sized by a count beyond the documented limits aborts the worker, counts inside the limits may legitimately allocate up to about 2.5 GB",
+			"'rejected before memory is allocated' is observed through the per-worker address-space cap (8 GiB, with the Go memory limit set to 3 GiB so that garbage from earlier within-limit decodes is collected instead of adding up): an allocation sized by a count beyond the documented limits aborts the worker, counts inside the limits may legitimately allocate up to about 2.5 GB",
 			"a nil error together with a value different from the original is not a violation of this property and is only counted (decode_success_after_fault)",
 			"a decode or use that makes no progress for 90 s of wall time is reported as a hang (normal cases take microseconds to seconds)",
 		},
 		real:  realCode,
 		stubs: streamStubs,
 		runs: []engineRun{
-			{spec: engineSpec{name: "c15enum", memCap: 6 << 30}, label: "c15enum", quickRuns: 2, quickDL: 50 * time.Second, thorRuns: 400, thorDL: 25 * time.Minute,
+			{spec: engineSpec{name: "c15enum", memCap: 8 << 30, envExtr: []string{"GOMEMLIMIT=3GiB"}}, label: "c15enum", quickRuns: 2, quickDL: 50 * time.Second, thorRuns: 400, thorDL: 25 * time.Minute,
 				description: "complete single-fault enumeration per corpus entry"},
-			{spec: engineSpec{name: "c15seq", memCap: 6 << 30}, label: "c15seq", quickRuns: 6000, quickDL: 25 * time.Second, thorRuns: 2000000, thorDL: 20 * time.Minute,
+			{spec: engineSpec{name: "c15seq", memCap: 8 << 30, envExtr: []string{"GOMEMLIMIT=3GiB"}}, label: "c15seq", quickRuns: 6000, quickDL: 25 * time.Second, thorRuns: 2000000, thorDL: 20 * time.Minute,
 				description: "seeded multi-fault sequences, splices, random bytes, cross-type decoding"},
 		},
 	}
